@@ -661,6 +661,44 @@ def mon_c05(h, outs):
                               "%s of object %s changed %r -> %r though no successful operation addressed it (ops %s)"
                               % (diff, u, [ob[f] for f in diff], [a[u][f] for f in diff],
                                  [(it["op"], it.get("uid")) for it in items]), i))
+        # "GetAttributes / GetAttributeList report exactly the attributes supplied at creation plus the server-assigned
+        # ones ... under every KMIP version": the NAMES a full listing reports are a function of the stored object and
+        # the request's version alone (whatever versions the server spoke before)
+        ver = j["req"]["version"]
+        if len(items) == 1 and results and results[0].get("status") == "ok" and ver in (10, 11, 12, 13, 14, 20):
+            it, d = items[0], results[0].get("data") or {}
+            got_names = None
+            if it["op"] == "getAttributeList":
+                got_names = set(d.get("names") or [])
+            elif it["op"] == "getAttributes" and not it.get("names"):
+                got_names = set(x["name"] for x in d.get("attrs") or [])
+            ob = b.get(str(it.get("uid")))
+            if got_names is not None and ob is not None:
+                want = {"Unique Identifier", "Object Type", "Initial Date"}
+                if ob.get("names"):
+                    want.add("Name")
+                if ob.get("groups"):
+                    want.add("Object Group")
+                if ob.get("appinfo"):
+                    want.add("Application Specific Information")
+                if ver < 20:
+                    want.add("Operation Policy Name")
+                if ver >= 14:
+                    want.add("Sensitive")
+                if ob["otype"] != 8:
+                    want |= {"State", "Cryptographic Usage Mask"}
+                if ob["otype"] in (2, 3, 4, 5):
+                    want |= {"Cryptographic Algorithm", "Cryptographic Length"}
+                if ob["otype"] == 1:
+                    want.add("Certificate Type")
+                core = {"Unique Identifier", "Object Type", "Initial Date", "Name", "Object Group", "Operation Policy Name",
+                        "Sensitive", "State", "Cryptographic Usage Mask", "Cryptographic Algorithm", "Cryptographic Length",
+                        "Application Specific Information", "Certificate Type"}
+                miss, extra = (want - got_names), ((got_names & core) - want)
+                if miss or extra:
+                    fails.append(("c05:attribute-listing-differs:%s" % ",".join(sorted(miss | extra)),
+                                  "%s of object %s (type %s) under KMIP %s reports %s; missing %s, unexpected %s"
+                                  % (it["op"], it.get("uid"), ob["otype"], ver, sorted(got_names), sorted(miss), sorted(extra)), i))
         for u, tmpl in made.items():
             if u in a and u not in touched and tmpl is not None and not tmpl.get("tnames"):
                 names, groups, appinfo = _supplied(tmpl)
